@@ -3,7 +3,8 @@
 
    What is proved here (all inputs of the models), and what is not:
    * the documented class as a boolean [in_class] on SOURCE programs (InClass.v, with the README
-     sentences it formalises) and its reading of restriction 3;
+     sentences it formalises), its reading of restriction 3, and the soundness of its value
+     analysis against Sem.run at every loop head (restriction 1 for the guard, semantically);
    * [graph_model]: Graph.get_defective_nodes marks exactly the nodes that are reachable from a
      cycle containing a non-linear edge — all finite labelled graphs, DFS with fuel = |V|;
    * the monomial worklist of RecBuilder.get_recurrences: a returned system is closed, its rows are
@@ -20,7 +21,7 @@
    per instance the hypothesis is decided by the executable [universe_closedb]. *)
 From Coq Require Import List String QArith Qcanon ZArith Bool Arith.
 From Polar Require Import Qcx CRing ExpPoly ClosedForm Dist Syntax Sem Types Poly Pipeline Wp
-  Graph InClass InClassWorklist InClassAtoms.
+  Graph InClass InClassSound InClassWorklist InClassAtoms.
 Import ListNotations.
 Open Scope string_scope.
 
@@ -45,6 +46,27 @@ Theorem C18_in_class_no_nonlinear_cycle :
         ~ reach (List.length nodes) adj u v.
 Proof. exact in_class_no_nonlinear_cycle. Qed.
 Print Assumptions C18_in_class_no_nonlinear_cycle.
+
+(* the value analysis behind in_class is SOUND for the reference semantics (no declared types):
+   whatever it types is finitely valued at every loop head, after any number of iterations,
+   whether the guard still holds or the state is frozen *)
+Theorem C18_value_analysis_sound :
+  forall (law : string -> list Qc -> dist Qc) (p : prog) (T : tenv),
+    loop_env p [] = Some T ->
+    forall n s0 s, supp (run law p n s0) s -> typed T s.
+Proof. exact loop_env_sound. Qed.
+Print Assumptions C18_value_analysis_sound.
+
+(* README restriction 1 for the loop guard, semantically: in an in-class program every atom a cop b of
+   the guard only ever compares finitely many values (a - b ranges over one explicit finite list in
+   every reachable state of every iteration) *)
+Theorem C18_in_class_guard_finitely_valued :
+  forall (law : string -> list Qc -> dist Qc) (p : prog),
+    in_class p [] = true ->
+    forall a b, In (a, b) (cond_atoms (p_guard p)) ->
+    exists vs : list Qc, forall n s0 s, supp (run law p n s0) s -> In (eval (ESub a b) s) vs.
+Proof. exact in_class_guard_finitely_valued. Qed.
+Print Assumptions C18_in_class_guard_finitely_valued.
 
 (* ---- graph_model ---- *)
 (* the DFS from a fresh mark array, with fuel = number of nodes, computes reachability *)
